@@ -512,9 +512,9 @@ pub fn stress_worker(a: &WorkerArgs) -> WorkerResult {
             }
         }
         "C07" => {
-            let plans: [(usize, usize, usize, u64); 4] = [(2, 1, 2, 3), (2, 2, 2, 1), (3, 1, 1, 8), (2, 2, 3, 2)];
+            let plans: [(usize, usize, usize, u64); 4] = [(2, 1, 2, 3), (3, 2, 2, 1), (3, 1, 1, 8), (2, 2, 3, 2)];
             let (iv, wr, rd, nk) = plans[a.idx as usize % 4];
-            let o = invalidation_race(iv, wr, rd, 30_000 * scale, nk);
+            let o = invalidation_race(iv, wr, rd, 150_000 * scale, nk);
             add(o, &mut res, 5);
         }
         "C02" => {
